@@ -281,7 +281,7 @@ Plan gen_w2(uint64_t seed, const std::string& tier, const std::string& focus) {
     Plan pl; pl.workload = "w2"; pl.seed = seed; sim::Rng r(seed * 7919 + 13);
     bool thorough = tier == "thorough";
     pl.p["shape"] = (int)r.below(SH_COUNT); pl.p["res"] = r.coin(thorough ? 0.15 : 0.05) ? 3 : r.range(1, 2);
-    pl.p["scale"] = r.coin(0.5) ? 1.0 : 1e-5 * r.uni(0.5, 2);
+    { double u = r.uni(); pl.p["scale"] = u < 0.4 ? 1.0 : (u < 0.8 ? 1e-5 * r.uni(0.5, 2) : 1e-6 * r.uni(0.5, 2)); }   // unit scale, tissue scale (metres), small cells
     static const double ratios[] = {0.4, 0.5, 0.6, 0.8, 1.0, 1.2}; pl.p["lmin_ratio"] = ratios[r.below(6)];
     pl.p["lmax_ratio"] = r.coin(0.7) ? 3.0 : r.uni(2.1, 4.0);
     pl.p["swap"] = r.coin(0.65); pl.p["regime"] = r.coin(0.35); pl.p["deep"] = (pl.geti("res") == 1 && r.coin(0.5)) || r.coin(0.1);
